@@ -5,7 +5,7 @@ kernel-size mode recorded by the hooks."""
 import json, re, random
 import vlib, rz
 
-_RE = re.compile(r'<<"REPLAY", "(.*)">>\s*$')
+_RE = re.compile(r'<<\s*"REPLAY",\s*"(.*?)"\s*>>', re.S)     # TLC wraps long tuples over several lines
 
 
 def behaviours(res, n):
@@ -15,10 +15,8 @@ def behaviours(res, n):
         res.violation(what="MC_Options invariant violated", detail=r["error"])
         return []
     seqs = []
-    for line in r["out"].splitlines():
-        m = _RE.search(line)
-        if m:
-            seqs.append(json.loads(m.group(1).replace('\\"', '"').replace("\\\\", "\\")))
+    for m in _RE.finditer(r["out"]):
+        seqs.append(json.loads(m.group(1).replace('\\"', '"').replace("\\\\", "\\")))
     return seqs
 
 
